@@ -1,17 +1,20 @@
-(* Src/CompileCorrect.v — compiler correctness for the fragment F1 (Src/Compile.v: in_F1,
-   func_in_F1): the code that the model of front/emit.c produces, run on the value-level VM
+(* Src/CompileCorrect.v — compiler correctness for the fragments F1 and F2 (Src/Compile.v:
+   in_F lv, func_in_F lv; lv = 1: expressions and straight-line blocks, lv = 2: + && || loops
+   print): the code that the model of front/emit.c produces, run on the value-level VM
    (VM/ValueVM.v), computes what the reference evaluator (Src/Eval.v) computes.
 
-     compile_expr_correct        code of an expression embedded anywhere in a program, from any
-                                 related pair of states: if `eval` yields cell c, the VM reaches
-                                 the end of the block with the image of c pushed (for a name: the
-                                 very address the name is bound to), stores related again, the
-                                 morphism extended; if `eval` raises division_by_zero the VM's
-                                 DIV/MOD handler raises it at an instruction inside the block
-     compile_func_correct_F1     a whole function body, entry to RET
-     compile_program_correct_F1  run_func (compile_func fd) = observe (run_program (single fd))
-   By induction on the evaluator's fuel with the unfolding equations of Src/EvalLemmas.v.
-   No axioms. *)
+     compile_expr_correct       code of an expression embedded anywhere in a program, from any
+                                related pair of states: if `eval` yields cell c, the VM reaches
+                                the end of the block with the image of c pushed (for a name: the
+                                very address the name is bound to), stores related again, the
+                                morphism extended, the same numbers printed; if `eval` raises
+                                division_by_zero the VM's DIV/MOD handler raises it at an
+                                instruction inside the block
+     compile_func_correct_F     a whole function body, entry to RET
+     compile_program_correct_F  run_func (compile_func fd) = observe (run_program (single fd))
+   By induction on the evaluator's fuel with the unfolding equations of Src/EvalLemmas.v; loops
+   use an auxiliary statement for runs that start after the loop's first LABEL (the back edge
+   lands there).  No axioms. *)
 From Coq Require Import ZArith List Bool Lia.
 From NV Require Import Gen.Opcodes Verifier.Effect Src.Syntax Src.Eval Src.EvalLemmas
   VM.ValueVM Src.Compile Src.CompileCorrectBase.
@@ -218,10 +221,11 @@ Proof. intros st v r st' H. unfold fresh in H. destruct (alloc st v). inv H. eau
 
 Section Correct.
 Variable genv : env.
+Variable lv : nat.      (* fragment level: 1 = F1, 2 = F2 *)
 
 Definition expr_case (k : nat) (e : expr) : Prop :=
   forall env st r st', eval genv k env st e = (r, st') ->
-  forall sc, in_F1 sc e = true ->
+  forall sc, in_F lv sc e = true ->
   forall prog pc L ce s m,
     code_at prog pc (compile_expr L ce e) -> v_ip s = pc ->
     MS m st (v_heap s) -> v_out s = out st -> env_match m env ce sc L (v_stk s) ->
@@ -231,7 +235,7 @@ Definition expr_spec (k : nat) : Prop := forall e, expr_case k e.
 
 Definition items_spec (k : nat) : Prop :=
   forall items env st last r st', eval_items genv k env st items last = (r, st') ->
-  forall sc, items_F1 sc items = true ->
+  forall sc, items_F lv sc items = true ->
   forall prog pc L ce s m,
     code_at prog pc (compile_items L ce items) -> v_ip s = pc ->
     MS m st (v_heap s) -> v_out s = out st -> env_match m env ce sc L (v_stk s) ->
@@ -436,19 +440,21 @@ Proof.
   unfold get_int, get_cell. simpl. rewrite nth_error_app2, Nat.sub_diag by lia. reflexivity.
 Qed.
 
-Lemma case_EBin : forall k op a b, expr_spec k -> expr_case (S k) (EBin op a b).
+Lemma compile_EBin : forall L ce op a b, f1_binop op = true ->
+  compile_expr L ce (EBin op a b) = compile_expr L ce a ++ compile_expr (L + 1) ce b ++ binop_code op.
+Proof. intros L ce op a b H. destruct op; try discriminate H; reflexivity. Qed.
+
+Lemma case_EBin : forall k op a b, f1_binop op = true -> expr_spec k -> expr_case (S k) (EBin op a b).
 Proof.
-  intros k op a b IH env st r st' He sc HF prog pc L ce s m Hc Hip HMS Hout Hem.
+  intros k op a b Hop IH env st r st' He sc HF prog pc L ce s m Hc Hip HMS Hout Hem.
   destruct s as [ip stk h o]; simpl in Hip, HMS, Hout, Hem; subst pc.
   simpl in HF.
   apply andb_true_iff in HF; destruct HF as [HF Fb].
   apply andb_true_iff in HF; destruct HF as [HF Fa].
   apply andb_true_iff in HF; destruct HF as [HF Hsh].
-  apply andb_true_iff in HF; destruct HF as [Hop _].
   assert (Hno : op <> And /\ op <> Or) by (destruct op; simpl in Hop; try discriminate; split; discriminate).
   rewrite eval_EBin in He by tauto.
-  change (compile_expr L ce (EBin op a b))
-    with (compile_expr L ce a ++ compile_expr (L + 1) ce b ++ binop_code op) in *.
+  rewrite (compile_EBin _ _ _ _ _ Hop) in *.
   set (ca := compile_expr L ce a) in *. set (cb := compile_expr (L + 1) ce b) in *.
   destruct (eval genv k env st a) as [r1 st1] eqn:Ea.
   pose proof (IH a _ _ _ _ Ea sc Fa prog ip L ce (mkst ip stk h o) m
@@ -590,7 +596,7 @@ Proof.
   destruct s as [ip stk h o]; simpl in Hip, HMS, Hout, Hem; subst pc.
   simpl in HF. destruct l; try discriminate HF.
   apply andb_true_iff in HF; destruct HF as [Fx Fb].
-  assert (Fa : in_F1 sc (EVar x) = true) by exact Fx.
+  assert (Fa : in_F lv sc (EVar x) = true) by exact Fx.
   rewrite eval_EAssign in He.
   change (compile_expr L ce (EAssign (EVar x) rhs))
     with (compile_expr L ce (EVar x) ++ compile_expr (L + 1) ce rhs ++ [ins0 BYTECODE_OP_ASS_INT]) in *.
@@ -629,12 +635,12 @@ Proof.
   - eapply ext_trans; eauto.
 Qed.
 
-Lemma items_F1_let : forall sc x e t, items_F1 sc (ILet x e :: t) = in_F1 sc e && items_F1 (x :: sc) t.
+Lemma items_F1_let : forall sc x e t, items_F lv sc (ILet x e :: t) = in_F lv sc e && items_F lv (x :: sc) t.
 Proof. reflexivity. Qed.
-Lemma items_F1_var : forall sc x e t, items_F1 sc (IVar x e :: t) = in_F1 sc e && items_F1 (x :: sc) t.
+Lemma items_F1_var : forall sc x e t, items_F lv sc (IVar x e :: t) = in_F lv sc e && items_F lv (x :: sc) t.
 Proof. reflexivity. Qed.
-Lemma items_F1_expr : forall sc e t, items_F1 sc (IExpr e :: t) =
-  in_F1 sc e && match t with [] => true | _ => items_F1 sc t end.
+Lemma items_F1_expr : forall sc e t, items_F lv sc (IExpr e :: t) =
+  in_F lv sc e && match t with [] => true | _ => items_F lv sc t end.
 Proof. reflexivity. Qed.
 
 Lemma nbinds_nonneg : forall l, 0 <= nbinds l.
@@ -645,7 +651,7 @@ Proof.
   intros k items IHi env st r st' He sc HF prog pc L ce s m Hc Hip HMS Hout Hem.
   destruct s as [ip stk h o]; simpl in Hip, HMS, Hout, Hem; subst pc.
   rewrite eval_EBlock in He. rewrite compile_block in *.
-  change (in_F1 sc (EBlock items)) with (items_F1 sc items) in HF.
+  change (in_F lv sc (EBlock items)) with (items_F lv sc items) in HF.
   pose proof (IHi items env st None r st' He sc HF prog ip L ce (mkst ip stk h o) m
                 (code_at_app_l _ _ _ _ Hc) eq_refl HMS Hout Hem) as Hi.
   destruct r as [c|ex| |]; simpl in Hi |- *; auto.
@@ -681,7 +687,7 @@ Lemma items_bind_step : forall k x e t, expr_spec k -> items_spec k ->
   match eval genv k env st e with
   | (ROk c, st1) => eval_items genv k ((x, c) :: env) st1 t (Some c)
   | r => r end = (r, st') ->
-  forall sc, in_F1 sc e && items_F1 (x :: sc) t = true ->
+  forall sc, in_F lv sc e && items_F lv (x :: sc) t = true ->
   forall prog pc L ce s m,
     code_at prog pc (compile_expr L ce e ++ compile_items (L + 1) ((x, L + 1) :: ce) t) -> v_ip s = pc ->
     MS m st (v_heap s) -> v_out s = out st -> env_match m env ce sc L (v_stk s) ->
@@ -766,28 +772,557 @@ Proof.
         eapply raises_weaken; [exact Hr | lia | rewrite app_length; simpl; lia].
 Qed.
 
-Lemma expr_step : forall k, expr_spec k -> items_spec k -> expr_spec (S k).
+(* ---- stage 2: short-circuit operators, loops, print ------------------------------------------- *)
+
+Lemma step_jump_to : forall prog ip stk h o off w t,
+  nth_error prog ip = Some (ins BYTECODE_JUMP off w) -> Z.of_nat ip + 1 + off = Z.of_nat t ->
+  step prog (mkst ip stk h o) = SNext (mkst t stk h o).
 Proof.
-  intros k IHe IHi e.
+  intros. unfold step. simpl. rewrite H. simpl. unfold jump_target. rewrite H0.
+  destruct (Z.of_nat t <? 0) eqn:E; [apply Z.ltb_lt in E; lia|]. rewrite Nat2Z.id. reflexivity.
+Qed.
+
+Lemma step_jumpz_to : forall prog ip a stk h o off w t,
+  nth_error prog ip = Some (ins BYTECODE_JUMPZ off w) -> nth_error h a = Some 0 ->
+  Z.of_nat ip + 1 + off = Z.of_nat t ->
+  step prog (mkst ip (a :: stk) h o) = SNext (mkst t stk h o).
+Proof.
+  intros. unfold step. simpl. rewrite H. simpl. rewrite H0. simpl. unfold jump_target. rewrite H1.
+  destruct (Z.of_nat t <? 0) eqn:E; [apply Z.ltb_lt in E; lia|]. rewrite Nat2Z.id. reflexivity.
+Qed.
+
+Lemma step_mark : forall prog ip stk h o rel w t,
+  nth_error prog ip = Some (ins BYTECODE_MARK rel w) -> Z.of_nat ip + rel = Z.of_nat t ->
+  step prog (mkst ip stk h o) = SNext (mkst (S ip) (t :: 0 :: 0 :: 0 :: 0 :: stk)%nat h o).
+Proof.
+  intros. unfold step. simpl. rewrite H. simpl. rewrite H0.
+  destruct (Z.of_nat t <? 0) eqn:E; [apply Z.ltb_lt in E; lia|]. rewrite Nat2Z.id. reflexivity.
+Qed.
+
+Lemma step_global_vec0 : forall prog ip stk h o,
+  nth_error prog ip = Some (ins BYTECODE_GLOBAL_VEC 0 0) ->
+  step prog (mkst ip stk h o) = SNext (mkst (S ip) (length h :: stk) (h ++ [0]) o).
+Proof. intros. unfold step. simpl. rewrite H. reflexivity. Qed.
+
+Lemma step_id_func_addr : forall prog ip v stk h o a w,
+  nth_error prog ip = Some (ins BYTECODE_ID_FUNC_ADDR a w) ->
+  step prog (mkst ip (v :: stk) h o) = SNext (mkst (S ip) (length h :: stk) (h ++ [a]) o).
+Proof. intros. unfold step. simpl. rewrite H. reflexivity. Qed.
+
+Lemma step_call_print : forall prog ip f arg ret x1 x2 x3 x4 stk h o z,
+  nth_error prog ip = Some (ins0 BYTECODE_CALL) ->
+  nth_error h f = Some print_addr -> nth_error h arg = Some z ->
+  step prog (mkst ip (f :: arg :: ret :: x1 :: x2 :: x3 :: x4 :: stk) h o) =
+  SNext (mkst ret (length h :: stk) (h ++ [z]) (z :: o)).
+Proof. intros. unfold step. simpl. rewrite H. simpl. rewrite H0, H1. reflexivity. Qed.
+
+Lemma MS_heap_app : forall m st h l, MS m st h -> MS m st (h ++ l).
+Proof.
+  intros m st h l HMS. constructor.
+  - apply (ms_len _ _ _ HMS).
+  - intros c a Hm. destruct (ms_rel _ _ _ HMS c a Hm) as (v & z & H1 & H2 & H3).
+    exists v, z. split; [|split]; auto. rewrite nth_error_app1; auto. apply nth_error_Some. congruence.
+  - apply (ms_inj _ _ _ HMS).
+Qed.
+
+Lemma MS_print : forall m st h z, MS m st h -> MS m (print_num st z) h.
+Proof. intros m st h z HMS. constructor; [apply (ms_len _ _ _ HMS) | apply (ms_rel _ _ _ HMS) | apply (ms_inj _ _ _ HMS)]. Qed.
+
+Lemma env_match_pushn : forall m e ce sc L stk pre, env_match m e ce sc L stk ->
+  env_match m e ce sc (L + Z.of_nat (length pre)) (pre ++ stk).
+Proof.
+  induction pre as [|a pre IH]; intros H.
+  - simpl. replace (L + 0) with L by lia. exact H.
+  - simpl app. replace (L + Z.of_nat (length (a :: pre))) with (L + Z.of_nat (length pre) + 1)
+      by (simpl length; lia).
+    apply env_match_push. apply IH. exact H.
+Qed.
+
+(* a run that ends where it started (same stack, extended morphism) can be put in front *)
+Lemma concl_star : forall prog s s2 pc n m m2 r st',
+  star prog s s2 -> v_stk s2 = v_stk s -> ext m m2 ->
+  concl prog s2 pc n m2 r st' -> concl prog s pc n m r st'.
+Proof.
+  intros prog s s2 pc n m m2 r st' Hst Hstk Hext Hc. destruct r as [c|ex| |]; simpl in *; auto.
+  - destruct Hc as (s' & m' & a & H1 & H2 & H3 & H4 & H5 & H6 & H7).
+    exists s', m', a. split; [eapply star_trans; eauto|]. split; [exact H2|].
+    split; [congruence|]. split; [exact H4|]. split; [exact H5|]. split; [eapply ext_trans; eauto | exact H7].
+  - destruct Hc as [-> Hr]. split; [reflexivity|]. eapply raises_star; eauto.
+Qed.
+
+(* pushing the constant of a finished loop / short-circuit form *)
+Lemma concl_int_const : forall prog s0 ip stk h o z v m0 m st r st' pc n,
+  star prog s0 (mkst ip stk h o) -> v_stk s0 = stk ->
+  nth_error prog ip = Some (ins BYTECODE_INT z 0) -> val_rel v z ->
+  MS m st h -> o = out st -> ext m0 m -> fresh st v = (r, st') ->
+  forall tail, star prog (mkst (S ip) (length h :: stk) (h ++ [z]) o)
+                         (mkst tail (length h :: stk) (h ++ [z]) o) ->
+  tail = (pc + n)%nat ->
+  concl prog s0 pc n m0 r st'.
+Proof.
+  intros prog s0 ip stk h o z v m0 m st r st' pc n Hst Hstk Hn Hv HMS Ho Hext Hf tail Htail Ht.
+  destruct (fresh_inv _ _ _ _ Hf) as (c & ->). simpl.
+  destruct (MS_fresh _ _ _ _ _ _ _ HMS Hv Hf) as (HMS' & Hm' & Hout').
+  apply (post_ok_intro _ _ _ _ _ _ (mkst tail (length h :: stk) (h ++ [z]) o)
+           (m ++ [Some (length h)]) (length h)); simpl; auto.
+  - eapply star_trans; [exact Hst|]. eapply star_step; [apply (step_int _ _ _ _ _ z 0); exact Hn|]. exact Htail.
+  - congruence.
+  - eapply ext_trans; [exact Hext | apply ext_snoc].
+  - congruence.
+Qed.
+
+Lemma and_code_length : forall ca cb, length (and_code ca cb) = (length ca + length cb + 7)%nat.
+Proof. intros. unfold and_code. rewrite !app_length. simpl. rewrite app_length. simpl. lia. Qed.
+Lemma or_code_length : forall ca cb, length (or_code ca cb) = (length ca + length cb + 10)%nat.
+Proof. intros. unfold or_code. rewrite !app_length. simpl. rewrite app_length. simpl. lia. Qed.
+Lemma while_code_length : forall cc cb, length (while_code cc cb) = (length cc + length cb + 6)%nat.
+Proof. intros. unfold while_code. simpl. rewrite !app_length. simpl. rewrite app_length. simpl. lia. Qed.
+Lemma dowhile_code_length : forall cb cc, length (dowhile_code cb cc) = (length cb + length cc + 6)%nat.
+Proof. intros. unfold dowhile_code. simpl. rewrite !app_length. simpl. rewrite app_length. simpl. lia. Qed.
+Lemma print_code_length : forall ca, length (print_code ca) = (length ca + 6)%nat.
+Proof. intros. unfold print_code. simpl. rewrite app_length. simpl. lia. Qed.
+
+Lemma case_EAnd : forall k a b, expr_spec k -> expr_case (S k) (EBin And a b).
+Proof.
+  intros k a b IH env st r st' He sc HF prog pc L ce s m Hc Hip HMS Hout Hem.
+  destruct s as [ip stk h o]; simpl in Hip, HMS, Hout, Hem; subst pc.
+  simpl in HF.
+  apply andb_true_iff in HF; destruct HF as [HF Fb].
+  apply andb_true_iff in HF; destruct HF as [_ Fa].
+  rewrite eval_EAnd in He.
+  change (compile_expr L ce (EBin And a b)) with (and_code (compile_expr L ce a) (compile_expr L ce b)) in *.
+  set (ca := compile_expr L ce a) in *. set (cb := compile_expr L ce b) in *.
+  rewrite and_code_length. unfold and_code in Hc.
+  pose proof (code_at_app_l _ _ _ _ Hc) as Hca.
+  pose proof (code_at_app_r _ _ _ _ Hc) as H1.
+  pose proof (code_at_head _ _ _ _ H1) as HJA.
+  pose proof (code_at_tail _ _ _ _ H1) as H2.
+  pose proof (code_at_app_l _ _ _ _ H2) as Hcb.
+  pose proof (code_at_app_r _ _ _ _ H2) as H3.
+  pose proof (code_at_head _ _ _ _ H3) as HJB.
+  pose proof (code_at_tail _ _ _ _ H3) as H4.
+  pose proof (code_at_head _ _ _ _ H4) as HI1.
+  pose proof (code_at_tail _ _ _ _ H4) as H5.
+  pose proof (code_at_head _ _ _ _ H5) as HJE.
+  pose proof (code_at_tail _ _ _ _ (code_at_tail _ _ _ _ H5)) as H6.
+  pose proof (code_at_head _ _ _ _ H6) as HI0.
+  pose proof (code_at_head _ _ _ _ (code_at_tail _ _ _ _ H6)) as HLE.
+  destruct (eval genv k env st a) as [r1 st1] eqn:Ea.
+  pose proof (IH a _ _ _ _ Ea sc Fa prog ip L ce (mkst ip stk h o) m Hca eq_refl HMS Hout Hem) as Ha.
+  fold ca in Ha.
+  destruct r1 as [c1|ex| |]; simpl in Ha; [| inv He; simpl | inv He; exact I | inv He; exact I].
+  2:{ destruct Ha as [-> Hr]. split; [reflexivity|]. eapply raises_weaken; [exact Hr | lia | lia]. }
+  destruct Ha as (s1 & m1 & a1 & Hst1 & Hip1 & Hstk1 & Hm1 & HMS1 & Hext1 & Hout1).
+  destruct s1 as [ip1 stk1 h1 o1]; simpl in Hip1, Hstk1, HMS1, Hout1; subst ip1 stk1.
+  destruct (get_bool st1 c1) as [bv|] eqn:Eg; [|inv He; exact I].
+  pose proof (MS_payload_bool _ _ _ _ _ _ HMS1 Hm1 Eg) as Hp.
+  (* the false exit: INT 0; LABEL *)
+  assert (Hfalse : forall hx ox, star prog (mkst (S (S (ip + length ca + length cb + 4))) (length hx :: stk) (hx ++ [0]) ox)
+                                      (mkst (ip + (length ca + length cb + 7)) (length hx :: stk) (hx ++ [0]) ox)).
+  { intros. replace (ip + (length ca + length cb + 7))%nat with (S (S (S (ip + length ca + length cb + 4)))) by lia.
+    apply star_one, step_label.
+    replace (S (S (ip + length ca + length cb + 4))) with (S (S (S (S (S (S (ip + length ca) + length cb)))))) by lia.
+    exact HLE. }
+  destruct bv.
+  - assert (Hj : star prog (mkst ip stk h o) (mkst (S (ip + length ca)) stk h1 o1)).
+    { eapply star_snoc; [exact Hst1|]. eapply step_jumpz_nonzero; eauto. simpl. lia. }
+    destruct (eval genv k env st1 b) as [r2 st2] eqn:Eb.
+    pose proof (IH b _ _ _ _ Eb sc Fb prog (S (ip + length ca)) L ce (mkst (S (ip + length ca)) stk h1 o1) m1
+                  Hcb eq_refl HMS1 Hout1 (env_match_ext _ _ _ _ _ _ _ Hem Hext1)) as Hb.
+    fold cb in Hb.
+    destruct r2 as [c2|ex| |]; simpl in Hb; [| inv He; simpl | inv He; exact I | inv He; exact I].
+    2:{ destruct Hb as [-> Hr]. split; [reflexivity|]. eapply raises_star; [exact Hj|].
+        eapply raises_weaken; [exact Hr | lia | lia]. }
+    destruct Hb as (s2 & m2 & a2 & Hst2 & Hip2 & Hstk2 & Hm2 & HMS2 & Hext2 & Hout2).
+    destruct s2 as [ip2 stk2 h2 o2]; simpl in Hip2, Hstk2, HMS2, Hout2; subst ip2 stk2.
+    destruct (get_bool st2 c2) as [bv2|] eqn:Eg2; [|inv He; exact I].
+    pose proof (MS_payload_bool _ _ _ _ _ _ HMS2 Hm2 Eg2) as Hp2.
+    assert (Hext : ext m m2) by (eapply ext_trans; eauto).
+    destruct bv2.
+    + (* both true: INT 1; JUMP E *)
+      eapply (concl_int_const _ _ (S (S (ip + length ca) + length cb)) stk h2 o2 1 (CBool true)); eauto.
+      * eapply star_trans; [exact Hj|]. eapply star_snoc; [exact Hst2|].
+        eapply step_jumpz_nonzero; eauto. simpl. lia.
+      * reflexivity.
+      * apply star_one. eapply step_jump_to; [exact HJE | lia].
+    + eapply (concl_int_const _ _ (S (ip + length ca + length cb + 4)) stk h2 o2 0 (CBool false)); eauto.
+      * eapply star_trans; [exact Hj|]. eapply star_snoc; [exact Hst2|].
+        eapply step_jumpz_to; [exact HJB | exact Hp2 | lia].
+      * replace (S (ip + length ca + length cb + 4)) with (S (S (S (S (S (ip + length ca) + length cb))))) by lia.
+        exact HI0.
+      * reflexivity.
+  - eapply (concl_int_const _ _ (S (ip + length ca + length cb + 4)) stk h1 o1 0 (CBool false)); eauto.
+    + eapply star_snoc; [exact Hst1|]. eapply step_jumpz_to; [exact HJA | exact Hp | unfold len; lia].
+    + replace (S (ip + length ca + length cb + 4)) with (S (S (S (S (S (ip + length ca) + length cb))))) by lia.
+      exact HI0.
+    + reflexivity.
+Qed.
+
+Lemma case_EOr : forall k a b, expr_spec k -> expr_case (S k) (EBin Or a b).
+Proof.
+  intros k a b IH env st r st' He sc HF prog pc L ce s m Hc Hip HMS Hout Hem.
+  destruct s as [ip stk h o]; simpl in Hip, HMS, Hout, Hem; subst pc.
+  simpl in HF.
+  apply andb_true_iff in HF; destruct HF as [HF Fb].
+  apply andb_true_iff in HF; destruct HF as [_ Fa].
+  rewrite eval_EOr in He.
+  change (compile_expr L ce (EBin Or a b)) with (or_code (compile_expr L ce a) (compile_expr L ce b)) in *.
+  set (ca := compile_expr L ce a) in *. set (cb := compile_expr L ce b) in *.
+  rewrite or_code_length. unfold or_code in Hc.
+  pose proof (code_at_app_l _ _ _ _ Hc) as Hca.
+  pose proof (code_at_app_r _ _ _ _ Hc) as H1.
+  pose proof (code_at_head _ _ _ _ H1) as HJA.
+  pose proof (code_at_tail _ _ _ _ H1) as H1a.
+  pose proof (code_at_head _ _ _ _ H1a) as HJET.
+  pose proof (code_at_tail _ _ _ _ (code_at_tail _ _ _ _ H1a)) as H2.
+  pose proof (code_at_app_l _ _ _ _ H2) as Hcb.
+  pose proof (code_at_app_r _ _ _ _ H2) as H3.
+  set (p1 := (ip + length ca)%nat) in *. set (p2 := (S (S (S p1)) + length cb)%nat) in *.
+  pose proof (code_at_head _ _ _ _ H3) as HJB.
+  pose proof (code_at_tail _ _ _ _ H3) as H4.
+  pose proof (code_at_head _ _ _ _ H4) as HLET.
+  pose proof (code_at_tail _ _ _ _ H4) as H5.
+  pose proof (code_at_head _ _ _ _ H5) as HI1.
+  pose proof (code_at_tail _ _ _ _ H5) as H6.
+  pose proof (code_at_head _ _ _ _ H6) as HJE.
+  pose proof (code_at_tail _ _ _ _ (code_at_tail _ _ _ _ H6)) as H8.
+  pose proof (code_at_head _ _ _ _ H8) as HI0.
+  pose proof (code_at_head _ _ _ _ (code_at_tail _ _ _ _ H8)) as HLE.
+  assert (Hend : (S (S (S (S (S (S (S p2)))))) = ip + (length ca + length cb + 10))%nat) by (subst p1 p2; lia).
+  assert (Htrue : forall hx ox, star prog (mkst (S (S (S p2))) (length hx :: stk) (hx ++ [1]) ox)
+                                     (mkst (S (S (S (S (S (S (S p2))))))) (length hx :: stk) (hx ++ [1]) ox)).
+  { intros. apply star_one. eapply step_jump_to; [exact HJE | lia]. }
+  assert (Hfalse : forall hx ox, star prog (mkst (S (S (S (S (S (S p2)))))) (length hx :: stk) (hx ++ [0]) ox)
+                                      (mkst (S (S (S (S (S (S (S p2))))))) (length hx :: stk) (hx ++ [0]) ox)).
+  { intros. apply star_one, step_label. exact HLE. }
+  destruct (eval genv k env st a) as [r1 st1] eqn:Ea.
+  pose proof (IH a _ _ _ _ Ea sc Fa prog ip L ce (mkst ip stk h o) m Hca eq_refl HMS Hout Hem) as Ha.
+  fold ca in Ha. fold p1 in Ha.
+  destruct r1 as [c1|ex| |]; simpl in Ha; [| inv He; simpl | inv He; exact I | inv He; exact I].
+  2:{ destruct Ha as [-> Hr]. split; [reflexivity|]. eapply raises_weaken; [exact Hr | lia | subst p1; lia]. }
+  destruct Ha as (s1 & m1 & a1 & Hst1 & Hip1 & Hstk1 & Hm1 & HMS1 & Hext1 & Hout1).
+  destruct s1 as [ip1 stk1 h1 o1]; simpl in Hip1, Hstk1, HMS1, Hout1; subst ip1 stk1.
+  destruct (get_bool st1 c1) as [bv|] eqn:Eg; [|inv He; exact I].
+  pose proof (MS_payload_bool _ _ _ _ _ _ HMS1 Hm1 Eg) as Hp.
+  destruct bv.
+  - (* a true: JUMPZ falls through, JUMP T, INT 1, JUMP E *)
+    eapply (concl_int_const _ _ (S (S p2)) stk h1 o1 1 (CBool true)); eauto.
+    + eapply star_snoc; [eapply star_snoc; [exact Hst1|]|].
+      * eapply step_jumpz_nonzero; eauto. simpl. lia.
+      * eapply step_jump_to; [exact HJET | subst p2; unfold len; lia].
+    + reflexivity.
+  - assert (Hj : star prog (mkst ip stk h o) (mkst (S (S (S p1))) stk h1 o1)).
+    { eapply star_snoc; [exact Hst1|]. eapply step_jumpz_to; [exact HJA | exact Hp | lia]. }
+    destruct (eval genv k env st1 b) as [r2 st2] eqn:Eb.
+    pose proof (IH b _ _ _ _ Eb sc Fb prog (S (S (S p1))) L ce (mkst (S (S (S p1))) stk h1 o1) m1
+                  Hcb eq_refl HMS1 Hout1 (env_match_ext _ _ _ _ _ _ _ Hem Hext1)) as Hb.
+    fold cb in Hb. fold p2 in Hb.
+    destruct r2 as [c2|ex| |]; simpl in Hb; [| inv He; simpl | inv He; exact I | inv He; exact I].
+    2:{ destruct Hb as [-> Hr]. split; [reflexivity|]. eapply raises_star; [exact Hj|].
+        eapply raises_weaken; [exact Hr | subst p1; lia | lia]. }
+    destruct Hb as (s2 & m2 & a2 & Hst2 & Hip2 & Hstk2 & Hm2 & HMS2 & Hext2 & Hout2).
+    destruct s2 as [ip2 stk2 h2 o2]; simpl in Hip2, Hstk2, HMS2, Hout2; subst ip2 stk2.
+    destruct (get_bool st2 c2) as [bv2|] eqn:Eg2; [|inv He; exact I].
+    pose proof (MS_payload_bool _ _ _ _ _ _ HMS2 Hm2 Eg2) as Hp2.
+    assert (Hext : ext m m2) by (eapply ext_trans; eauto).
+    destruct bv2.
+    + eapply (concl_int_const _ _ (S (S p2)) stk h2 o2 1 (CBool true)); eauto.
+      * eapply star_trans; [exact Hj|]. eapply star_snoc; [eapply star_snoc; [exact Hst2|]|].
+        -- eapply step_jumpz_nonzero; eauto. simpl. lia.
+        -- apply step_label. exact HLET.
+      * reflexivity.
+    + eapply (concl_int_const _ _ (S (S (S (S (S p2))))) stk h2 o2 0 (CBool false)); eauto.
+      * eapply star_trans; [exact Hj|]. eapply star_snoc; [exact Hst2|].
+        eapply step_jumpz_to; [exact HJB | exact Hp2 | lia].
+      * reflexivity.
+Qed.
+
+(* ---- loops: the statement for a run that starts after the loop's first LABEL -------------------- *)
+
+Definition while_spec (k : nat) : Prop :=
+  forall c b env st r st', eval genv k env st (EWhile c b) = (r, st') ->
+  forall sc, in_F lv sc c = true -> in_F lv sc b = true ->
+  forall prog pc L ce s m,
+    code_at prog pc (while_code (compile_expr L ce c) (compile_expr L ce b)) -> v_ip s = S pc ->
+    MS m st (v_heap s) -> v_out s = out st -> env_match m env ce sc L (v_stk s) ->
+    concl prog s pc (length (while_code (compile_expr L ce c) (compile_expr L ce b))) m r st'.
+
+Definition dowhile_spec (k : nat) : Prop :=
+  forall b c env st r st', eval genv k env st (EDoWhile b c) = (r, st') ->
+  forall sc, in_F lv sc b = true -> in_F lv sc c = true ->
+  forall prog pc L ce s m,
+    code_at prog pc (dowhile_code (compile_expr L ce b) (compile_expr L ce c)) -> v_ip s = S pc ->
+    MS m st (v_heap s) -> v_out s = out st -> env_match m env ce sc L (v_stk s) ->
+    concl prog s pc (length (dowhile_code (compile_expr L ce b) (compile_expr L ce c))) m r st'.
+
+Lemma while_step : forall k, expr_spec k -> while_spec k -> while_spec (S k).
+Proof.
+  intros k IH IHw c b env st r st' He sc Fc Fb prog pc L ce s m Hc Hip HMS Hout Hem.
+  destruct s as [ip stk h o]; simpl in Hip, HMS, Hout, Hem; subst ip.
+  rewrite eval_EWhile in He.
+  set (cc := compile_expr L ce c) in *. set (cb := compile_expr L ce b) in *.
+  rewrite while_code_length. pose proof Hc as Hc0. unfold while_code in Hc.
+  pose proof (code_at_tail _ _ _ _ Hc) as H0.
+  pose proof (code_at_app_l _ _ _ _ H0) as Hcc.
+  pose proof (code_at_app_r _ _ _ _ H0) as H1.
+  pose proof (code_at_head _ _ _ _ H1) as HJZ.
+  pose proof (code_at_tail _ _ _ _ H1) as H2.
+  pose proof (code_at_app_l _ _ _ _ H2) as Hcb.
+  pose proof (code_at_app_r _ _ _ _ H2) as H3.
+  set (q := (S (S pc + length cc) + length cb)%nat) in *.
+  pose proof (code_at_head _ _ _ _ H3) as HSL.
+  pose proof (code_at_head _ _ _ _ (code_at_tail _ _ _ _ H3)) as HJ.
+  pose proof (code_at_head _ _ _ _ (code_at_tail _ _ _ _ (code_at_tail _ _ _ _ (code_at_tail _ _ _ _ H3)))) as HI0.
+  assert (Hend : (S (S (S (S q))) = pc + (length cc + length cb + 6))%nat) by (subst q; lia).
+  destruct (eval genv k env st c) as [r1 st1] eqn:Ec.
+  pose proof (IH c _ _ _ _ Ec sc Fc prog (S pc) L ce (mkst (S pc) stk h o) m Hcc eq_refl HMS Hout Hem) as Hcnd.
+  fold cc in Hcnd.
+  destruct r1 as [c1|ex| |]; simpl in Hcnd; [| inv He; simpl | inv He; exact I | inv He; exact I].
+  2:{ destruct Hcnd as [-> Hr]. split; [reflexivity|]. eapply raises_weaken; [exact Hr | lia | lia]. }
+  destruct Hcnd as (s1 & m1 & a1 & Hst1 & Hip1 & Hstk1 & Hm1 & HMS1 & Hext1 & Hout1).
+  destruct s1 as [ip1 stk1 h1 o1]; simpl in Hip1, Hstk1, HMS1, Hout1; subst ip1 stk1.
+  destruct (get_bool st1 c1) as [bv|] eqn:Eg; [|inv He; exact I].
+  pose proof (MS_payload_bool _ _ _ _ _ _ HMS1 Hm1 Eg) as Hp.
+  pose proof (env_match_ext _ _ _ _ _ _ _ Hem Hext1) as Hem1.
+  destruct bv.
+  - assert (Hj : star prog (mkst (S pc) stk h o) (mkst (S (S pc + length cc)) stk h1 o1)).
+    { eapply star_snoc; [exact Hst1|]. eapply step_jumpz_nonzero; eauto. simpl. lia. }
+    destruct (eval genv k env st1 b) as [r2 st2] eqn:Eb.
+    pose proof (IH b _ _ _ _ Eb sc Fb prog (S (S pc + length cc)) L ce (mkst (S (S pc + length cc)) stk h1 o1) m1
+                  Hcb eq_refl HMS1 Hout1 Hem1) as Hb.
+    fold cb in Hb. fold q in Hb.
+    destruct r2 as [c2|ex| |]; simpl in Hb; [| inv He; simpl | inv He; exact I | inv He; exact I].
+    2:{ destruct Hb as [-> Hr]. split; [reflexivity|]. eapply raises_star; [exact Hj|].
+        eapply raises_weaken; [exact Hr | lia | lia]. }
+    destruct Hb as (s2 & m2 & a2 & Hst2 & Hip2 & Hstk2 & Hm2 & HMS2 & Hext2 & Hout2).
+    destruct s2 as [ip2 stk2 h2 o2]; simpl in Hip2, Hstk2, HMS2, Hout2; subst ip2 stk2.
+    assert (Hback : star prog (mkst (S pc) stk h o) (mkst (S pc) stk h2 o2)).
+    { eapply star_trans; [exact Hj|]. eapply star_snoc; [eapply star_snoc; [exact Hst2|]|].
+      - apply step_slide_pop. exact HSL.
+      - eapply step_jump_to; [exact HJ | subst q; unfold len; lia]. }
+    pose proof (IHw c b _ _ _ _ He sc Fc Fb prog pc L ce (mkst (S pc) stk h2 o2) m2 Hc0 eq_refl HMS2 Hout2
+                  (env_match_ext _ _ _ _ _ _ _ Hem1 Hext2)) as Hloop.
+    fold cc cb in Hloop. rewrite while_code_length in Hloop.
+    eapply concl_star; [exact Hback | reflexivity | eapply ext_trans; eauto | exact Hloop].
+  - eapply (concl_int_const _ _ (S (S (S q))) stk h1 o1 0 (CInt 0)); eauto.
+    + eapply star_snoc; [exact Hst1|]. eapply step_jumpz_to; [exact HJZ | exact Hp | subst q; unfold len; lia].
+    + reflexivity.
+    + apply star_refl.
+Qed.
+
+Lemma case_EWhile : forall k c b, while_spec (S k) -> expr_case (S k) (EWhile c b).
+Proof.
+  intros k c b IHw env st r st' He sc HF prog pc L ce s m Hc Hip HMS Hout Hem.
+  destruct s as [ip stk h o]; simpl in Hip, HMS, Hout, Hem; subst pc.
+  simpl in HF.
+  apply andb_true_iff in HF; destruct HF as [HF Fb].
+  apply andb_true_iff in HF; destruct HF as [_ Fc].
+  change (compile_expr L ce (EWhile c b)) with (while_code (compile_expr L ce c) (compile_expr L ce b)) in *.
+  pose proof (IHw c b _ _ _ _ He sc Fc Fb prog ip L ce (mkst (S ip) stk h o) m Hc eq_refl HMS Hout Hem) as Hx.
+  eapply (concl_star _ _ (mkst (S ip) stk h o)); [| reflexivity | apply ext_refl | exact Hx].
+  apply star_one, step_label. unfold while_code in Hc. eapply code_at_head; exact Hc.
+Qed.
+
+Lemma dowhile_step : forall k, expr_spec k -> dowhile_spec k -> dowhile_spec (S k).
+Proof.
+  intros k IH IHw b c env st r st' He sc Fb Fc prog pc L ce s m Hc Hip HMS Hout Hem.
+  destruct s as [ip stk h o]; simpl in Hip, HMS, Hout, Hem; subst ip.
+  rewrite eval_EDoWhile in He.
+  set (cb := compile_expr L ce b) in *. set (cc := compile_expr L ce c) in *.
+  rewrite dowhile_code_length. pose proof Hc as Hc0. unfold dowhile_code in Hc.
+  pose proof (code_at_tail _ _ _ _ Hc) as H0.
+  pose proof (code_at_app_l _ _ _ _ H0) as Hcb.
+  pose proof (code_at_app_r _ _ _ _ H0) as H1.
+  pose proof (code_at_head _ _ _ _ H1) as HSL.
+  pose proof (code_at_tail _ _ _ _ H1) as H2.
+  pose proof (code_at_app_l _ _ _ _ H2) as Hcc.
+  pose proof (code_at_app_r _ _ _ _ H2) as H3.
+  set (q := (S (S pc + length cb) + length cc)%nat) in *.
+  pose proof (code_at_head _ _ _ _ H3) as HJZ.
+  pose proof (code_at_head _ _ _ _ (code_at_tail _ _ _ _ H3)) as HJ.
+  pose proof (code_at_head _ _ _ _ (code_at_tail _ _ _ _ (code_at_tail _ _ _ _ (code_at_tail _ _ _ _ H3)))) as HI0.
+  assert (Hend : (S (S (S (S q))) = pc + (length cb + length cc + 6))%nat) by (subst q; lia).
+  destruct (eval genv k env st b) as [r1 st1] eqn:Eb.
+  pose proof (IH b _ _ _ _ Eb sc Fb prog (S pc) L ce (mkst (S pc) stk h o) m Hcb eq_refl HMS Hout Hem) as Hbd.
+  fold cb in Hbd.
+  destruct r1 as [c1|ex| |]; simpl in Hbd; [| inv He; simpl | inv He; exact I | inv He; exact I].
+  2:{ destruct Hbd as [-> Hr]. split; [reflexivity|]. eapply raises_weaken; [exact Hr | lia | lia]. }
+  destruct Hbd as (s1 & m1 & a1 & Hst1 & Hip1 & Hstk1 & Hm1 & HMS1 & Hext1 & Hout1).
+  destruct s1 as [ip1 stk1 h1 o1]; simpl in Hip1, Hstk1, HMS1, Hout1; subst ip1 stk1.
+  pose proof (env_match_ext _ _ _ _ _ _ _ Hem Hext1) as Hem1.
+  assert (Hj : star prog (mkst (S pc) stk h o) (mkst (S (S pc + length cb)) stk h1 o1)).
+  { eapply star_snoc; [exact Hst1|]. apply step_slide_pop. exact HSL. }
+  destruct (eval genv k env st1 c) as [r2 st2] eqn:Ec.
+  pose proof (IH c _ _ _ _ Ec sc Fc prog (S (S pc + length cb)) L ce (mkst (S (S pc + length cb)) stk h1 o1) m1
+                Hcc eq_refl HMS1 Hout1 Hem1) as Hcnd.
+  fold cc in Hcnd. fold q in Hcnd.
+  destruct r2 as [c2|ex| |]; simpl in Hcnd; [| inv He; simpl | inv He; exact I | inv He; exact I].
+  2:{ destruct Hcnd as [-> Hr]. split; [reflexivity|]. eapply raises_star; [exact Hj|].
+      eapply raises_weaken; [exact Hr | lia | lia]. }
+  destruct Hcnd as (s2 & m2 & a2 & Hst2 & Hip2 & Hstk2 & Hm2 & HMS2 & Hext2 & Hout2).
+  destruct s2 as [ip2 stk2 h2 o2]; simpl in Hip2, Hstk2, HMS2, Hout2; subst ip2 stk2.
+  destruct (get_bool st2 c2) as [bv|] eqn:Eg; [|inv He; exact I].
+  pose proof (MS_payload_bool _ _ _ _ _ _ HMS2 Hm2 Eg) as Hp.
+  assert (Hext : ext m m2) by (eapply ext_trans; eauto).
+  destruct bv.
+  - assert (Hback : star prog (mkst (S pc) stk h o) (mkst (S pc) stk h2 o2)).
+    { eapply star_trans; [exact Hj|]. eapply star_snoc; [eapply star_snoc; [exact Hst2|]|].
+      - eapply step_jumpz_nonzero; eauto. simpl. lia.
+      - eapply step_jump_to; [exact HJ | subst q; unfold len; lia]. }
+    pose proof (IHw b c _ _ _ _ He sc Fb Fc prog pc L ce (mkst (S pc) stk h2 o2) m2 Hc0 eq_refl HMS2 Hout2
+                  (env_match_ext _ _ _ _ _ _ _ Hem1 Hext2)) as Hloop.
+    fold cb cc in Hloop. rewrite dowhile_code_length in Hloop.
+    eapply concl_star; [exact Hback | reflexivity | exact Hext | exact Hloop].
+  - eapply (concl_int_const _ _ (S (S (S q))) stk h2 o2 0 (CInt 0)); eauto.
+    + eapply star_trans; [exact Hj|]. eapply star_snoc; [exact Hst2|].
+      eapply step_jumpz_to; [exact HJZ | exact Hp | lia].
+    + reflexivity.
+    + apply star_refl.
+Qed.
+
+Lemma case_EDoWhile : forall k b c, dowhile_spec (S k) -> expr_case (S k) (EDoWhile b c).
+Proof.
+  intros k b c IHw env st r st' He sc HF prog pc L ce s m Hc Hip HMS Hout Hem.
+  destruct s as [ip stk h o]; simpl in Hip, HMS, Hout, Hem; subst pc.
+  simpl in HF.
+  apply andb_true_iff in HF; destruct HF as [HF Fc].
+  apply andb_true_iff in HF; destruct HF as [_ Fb].
+  change (compile_expr L ce (EDoWhile b c)) with (dowhile_code (compile_expr L ce b) (compile_expr L ce c)) in *.
+  pose proof (IHw b c _ _ _ _ He sc Fb Fc prog ip L ce (mkst (S ip) stk h o) m Hc eq_refl HMS Hout Hem) as Hx.
+  eapply (concl_star _ _ (mkst (S ip) stk h o)); [| reflexivity | apply ext_refl | exact Hx].
+  apply star_one, step_label. unfold dowhile_code in Hc. eapply code_at_head; exact Hc.
+Qed.
+
+Lemma case_EFor : forall k i c st0 b, expr_spec k -> expr_case (S k) (EFor i c st0 b).
+Proof.
+  intros k i c st0 b IH env st r st' He sc HF prog pc L ce s m Hc Hip HMS Hout Hem.
+  destruct s as [ip stk h o]; simpl in Hip, HMS, Hout, Hem; subst pc.
+  simpl in HF.
+  apply andb_true_iff in HF; destruct HF as [HF Fb].
+  apply andb_true_iff in HF; destruct HF as [HF Fs].
+  apply andb_true_iff in HF; destruct HF as [HF Fc].
+  apply andb_true_iff in HF; destruct HF as [Hlv Fi].
+  assert (Fw : in_F lv sc (EWhile c (EBlock [IExpr b; IExpr st0])) = true).
+  { simpl. rewrite Hlv, Fc, Fb, Fs. reflexivity. }
+  rewrite eval_EFor in He. rewrite compile_for in *.
+  set (ci := compile_expr L ce i) in *.
+  set (cw := compile_expr L ce (EWhile c (EBlock [IExpr b; IExpr st0]))) in *.
+  destruct (eval genv k env st i) as [r1 st1] eqn:Ei.
+  pose proof (IH i _ _ _ _ Ei sc Fi prog ip L ce (mkst ip stk h o) m (code_at_app_l _ _ _ _ Hc) eq_refl HMS Hout Hem) as Hi.
+  fold ci in Hi.
+  destruct r1 as [c1|ex| |]; simpl in Hi; [| inv He; simpl | inv He; exact I | inv He; exact I].
+  2:{ destruct Hi as [-> Hr]. split; [reflexivity|]. eapply raises_weaken; [exact Hr | lia | rewrite app_length; lia]. }
+  destruct Hi as (s1 & m1 & a1 & Hst1 & Hip1 & Hstk1 & Hm1 & HMS1 & Hext1 & Hout1).
+  destruct s1 as [ip1 stk1 h1 o1]; simpl in Hip1, Hstk1, HMS1, Hout1; subst ip1 stk1.
+  pose proof (code_at_app_r _ _ _ _ Hc) as H1.
+  assert (Hpop : star prog (mkst ip stk h o) (mkst (S (ip + length ci)) stk h1 o1)).
+  { eapply star_snoc; [exact Hst1|]. apply step_slide_pop. eapply code_at_head; exact H1. }
+  pose proof (IH _ _ _ _ _ He sc Fw prog (S (ip + length ci)) L ce (mkst (S (ip + length ci)) stk h1 o1) m1
+                (code_at_tail _ _ _ _ H1) eq_refl HMS1 Hout1 (env_match_ext _ _ _ _ _ _ _ Hem Hext1)) as Hw.
+  fold cw in Hw.
+  replace (length (ci ++ ins BYTECODE_SLIDE 1 0 :: cw)) with (S (length ci) + length cw)%nat
+    by (rewrite app_length; simpl; lia).
+  destruct r as [c2|ex| |]; simpl in Hw |- *; auto.
+  - destruct Hw as (s2 & m2 & a2 & Hst2 & Hip2 & Hstk2 & Hm2 & HMS2 & Hext2 & Hout2).
+    exists s2, m2, a2. split; [eapply star_trans; eauto|]. split; [rewrite Hip2; lia|].
+    split; [exact Hstk2|]. split; [exact Hm2|]. split; [exact HMS2|].
+    split; [eapply ext_trans; eauto | exact Hout2].
+  - destruct Hw as [-> Hr]. split; [reflexivity|]. eapply raises_star; [exact Hpop|].
+    eapply raises_weaken; [exact Hr | lia | lia].
+Qed.
+
+Lemma case_EPrint : forall k a, expr_spec k -> expr_case (S k) (EPrint a).
+Proof.
+  intros k a IH env st r st' He sc HF prog pc L ce s m Hc Hip HMS Hout Hem.
+  destruct s as [ip stk h o]; simpl in Hip, HMS, Hout, Hem; subst pc.
+  simpl in HF. apply andb_true_iff in HF; destruct HF as [_ Fa].
+  rewrite eval_EPrint in He.
+  change (compile_expr L ce (EPrint a)) with (print_code (compile_expr (L + num_frame_ptrs) ce a)) in *.
+  set (ca := compile_expr (L + num_frame_ptrs) ce a) in *.
+  rewrite print_code_length. unfold print_code in Hc.
+  pose proof (code_at_head _ _ _ _ Hc) as HLN.
+  pose proof (code_at_tail _ _ _ _ Hc) as H1.
+  pose proof (code_at_head _ _ _ _ H1) as HMK.
+  pose proof (code_at_tail _ _ _ _ H1) as H2.
+  pose proof (code_at_app_l _ _ _ _ H2) as Hca.
+  pose proof (code_at_app_r _ _ _ _ H2) as H3.
+  set (q := (S (S ip) + length ca)%nat) in *.
+  pose proof (code_at_head _ _ _ _ H3) as HGV.
+  pose proof (code_at_head _ _ _ _ (code_at_tail _ _ _ _ H3)) as HFA.
+  pose proof (code_at_head _ _ _ _ (code_at_tail _ _ _ _ (code_at_tail _ _ _ _ H3))) as HCL.
+  pose proof (code_at_head _ _ _ _ (code_at_tail _ _ _ _ (code_at_tail _ _ _ _ (code_at_tail _ _ _ _ H3)))) as HLB.
+  set (hdr := [S (S (S q)); 0; 0; 0; 0]%nat).
+  assert (Hmk : star prog (mkst ip stk h o) (mkst (S (S ip)) (hdr ++ stk) h o)).
+  { eapply star_step; [apply step_line; exact HLN|]. apply star_one.
+    eapply step_mark; [exact HMK | subst q; unfold len; lia]. }
+  destruct (eval genv k env st a) as [r1 st1] eqn:Ea.
+  pose proof (env_match_pushn _ _ _ _ _ _ hdr Hem) as Hem5.
+  change (Z.of_nat (length hdr)) with num_frame_ptrs in Hem5.
+  pose proof (IH a _ _ _ _ Ea sc Fa prog (S (S ip)) (L + num_frame_ptrs) ce (mkst (S (S ip)) (hdr ++ stk) h o) m
+                Hca eq_refl HMS Hout Hem5) as Ha.
+  fold ca in Ha. fold q in Ha.
+  destruct r1 as [c1|ex| |]; simpl in Ha; [| inv He; simpl | inv He; exact I | inv He; exact I].
+  2:{ destruct Ha as [-> Hr]. split; [reflexivity|]. eapply raises_star; [exact Hmk|].
+      eapply raises_weaken; [exact Hr | lia | subst q; lia]. }
+  destruct Ha as (s1 & m1 & a1 & Hst1 & Hip1 & Hstk1 & Hm1 & HMS1 & Hext1 & Hout1).
+  destruct s1 as [ip1 stk1 h1 o1]; simpl in Hip1, Hstk1, HMS1, Hout1; subst ip1 stk1.
+  destruct (get_int st1 c1) as [z|] eqn:Eg; [|inv He; exact I].
+  pose proof (MS_payload_int _ _ _ _ _ _ HMS1 Hm1 Eg) as Hp.
+  destruct (fresh_inv _ _ _ _ He) as (c & ->). simpl.
+  set (h3 := (h1 ++ [0]) ++ [print_addr]).
+  assert (HMS3 : MS m1 (print_num st1 z) h3).
+  { apply MS_print. unfold h3. apply MS_heap_app. apply MS_heap_app. exact HMS1. }
+  assert (Hv : val_rel (CInt z) z) by reflexivity.
+  destruct (MS_fresh _ _ _ _ _ _ _ HMS3 Hv He) as (HMS' & Hm' & Hout').
+  apply (post_ok_intro _ _ _ _ _ _ (mkst (S (S (S (S q)))) (length h3 :: stk) (h3 ++ [z]) (z :: o1))
+           (m1 ++ [Some (length h3)]) (length h3)); simpl; auto.
+  - eapply star_trans; [exact Hmk|]. eapply star_trans; [exact Hst1|].
+    eapply star_step; [apply step_global_vec0; exact HGV|].
+    eapply star_step; [eapply step_id_func_addr; exact HFA|].
+    eapply star_step.
+    + unfold hdr. simpl app. eapply (step_call_print _ _ _ a1 _ _ _ _ _ _ _ _ z); [exact HCL | |].
+      * rewrite nth_error_app2 by (rewrite app_length; simpl; lia).
+        rewrite app_length. simpl. replace (length h1 + 1 - (length h1 + 1))%nat with 0%nat by lia. reflexivity.
+      * rewrite nth_error_app1 by (rewrite app_length; apply nth_error_Some in Hp || (assert (a1 < length h1)%nat by (apply nth_error_Some; congruence); lia)).
+        rewrite nth_error_app1 by (apply nth_error_Some; congruence). exact Hp.
+    + apply star_one. apply step_label. exact HLB.
+  - subst q. lia.
+  - eapply ext_trans; [exact Hext1 | apply ext_snoc].
+  - rewrite Hout'. simpl. congruence.
+Qed.
+
+Lemma expr_step : forall k, expr_spec k -> items_spec k -> while_spec (S k) -> dowhile_spec (S k) ->
+  expr_spec (S k).
+Proof.
+  intros k IHe IHi IHw IHd e.
   destruct e; try (intros ? ? ? ? ? ? HF; simpl in HF; discriminate HF).
   - apply case_EInt.
   - apply case_EBool.
   - apply case_EVar.
   - apply case_ENeg; assumption.
   - apply case_ENot; assumption.
-  - apply case_EBin; assumption.
+  - destruct op; try (apply case_EBin; [reflexivity | assumption]).
+    + apply case_EAnd; assumption.
+    + apply case_EOr; assumption.
   - apply case_ECond; assumption.
   - apply case_EAssign; assumption.
   - apply case_EBlock; assumption.
+  - apply case_EWhile; assumption.
+  - apply case_EDoWhile; assumption.
+  - apply case_EFor; assumption.
+  - apply case_EPrint; assumption.
 Qed.
 
-Lemma spec_all : forall k, expr_spec k /\ items_spec k.
+Lemma spec_all : forall k, expr_spec k /\ items_spec k /\ while_spec k /\ dowhile_spec k.
 Proof.
-  induction k as [|k [IHe IHi]].
-  - split.
+  induction k as [|k (IHe & IHi & IHw & IHd)].
+  - split; [|split; [|split]].
     + intros e env st r st' He. rewrite eval_O in He. inv He. intros; exact I.
     + intros items env st last r st' He. rewrite eval_items_O in He. inv He. intros; exact I.
-  - split.
+    + intros c b env st r st' He. rewrite eval_O in He. inv He. intros; exact I.
+    + intros b c env st r st' He. rewrite eval_O in He. inv He. intros; exact I.
+  - pose proof (while_step k IHe IHw) as IHw'. pose proof (dowhile_step k IHe IHd) as IHd'.
+    split; [|split; [|split]]; auto.
     + apply expr_step; assumption.
     + apply items_step; assumption.
 Qed.
@@ -795,7 +1330,7 @@ Qed.
 (* ---- compile_expr_correct ----------------------------------------------------------------- *)
 
 Theorem compile_expr_correct : forall fuel e env st r st' sc,
-  eval genv fuel env st e = (r, st') -> in_F1 sc e = true ->
+  eval genv fuel env st e = (r, st') -> in_F lv sc e = true ->
   forall prog pc L ce s m,
     code_at prog pc (compile_expr L ce e) -> v_ip s = pc ->
     MS m st (v_heap s) -> v_out s = out st -> env_match m env ce sc L (v_stk s) ->
@@ -841,8 +1376,8 @@ Proof.
 Qed.
 
 (* the activation: from the function's entry to RET (result) or to the raising handler *)
-Theorem compile_func_correct_F1 : forall fuel fd cs penv st r st' prog entry m stk h,
-  func_in_F1 fd = true ->
+Theorem compile_func_correct_F : forall fuel fd cs penv st r st' prog entry m stk h,
+  func_in_F lv fd = true ->
   bind_params (fd_params fd) cs = Some penv ->
   eval_items genv fuel penv st (fd_body fd) None = (r, st') ->
   code_at prog entry (compile_func fd) ->
@@ -860,7 +1395,7 @@ Theorem compile_func_correct_F1 : forall fuel fd cs penv st r st' prog entry m s
   end.
 Proof.
   intros fuel fd cs penv st r st' prog entry m stk h HF Hb He Hc HMS Hargs.
-  unfold func_in_F1 in HF. apply andb_true_iff in HF. destruct HF as [HFb _].
+  unfold func_in_F in HF. apply andb_true_iff in HF. destruct HF as [HFb _].
   unfold compile_func in Hc.
   pose proof (code_at_head _ _ _ _ Hc) as Hfd. pose proof (code_at_tail _ _ _ _ Hc) as Hc1.
   pose proof (code_at_app_l _ _ _ _ Hc1) as Hbody. pose proof (code_at_app_r _ _ _ _ Hc1) as Hc2.
@@ -953,8 +1488,8 @@ Proof.
   - intros c1 c2 a H1 H2. apply entry_morph_nth in H1, H2. destruct H1, H2. congruence.
 Qed.
 
-Theorem compile_program_correct_F1 : forall fuel fd args,
-  func_in_F1 fd = true ->
+Theorem compile_program_correct_F : forall lv fuel fd args,
+  func_in_F lv fd = true ->
   match run_program fuel (single fd) args with
   | OResult v printed =>
       exists k z, run_func (compile_func fd) 0 k args = VRet z printed /\ val_rel v z
@@ -963,7 +1498,7 @@ Theorem compile_program_correct_F1 : forall fuel fd args,
   | OFuel | OStuck => True
   end.
 Proof.
-  intros fuel fd args HF. unfold run_program, single, init_state. simpl.
+  intros lv fuel fd args HF. unfold run_program, single, init_state. simpl.
   rewrite alloc_args. simpl. rewrite N.eqb_refl. unfold get_cell. simpl.
   destruct (bind_params (fd_params fd) (seq 1 (length args))) as [penv|] eqn:Hb; [|exact I].
   set (genv := [(fd_name fd, 0%nat)]).
@@ -973,7 +1508,7 @@ Proof.
                           (seq 1 (length args)) (seq 0 (length args))).
   { apply Forall2_seq. intros a Ha. unfold entry_morph. simpl. rewrite nth_error_map, nth_error_seq by lia.
     reflexivity. }
-  pose proof (compile_func_correct_F1 genv fuel fd _ penv st1 r st2 (compile_func fd) 0
+  pose proof (compile_func_correct_F genv lv fuel fd _ penv st1 r st2 (compile_func fd) 0
                 (entry_morph (length args)) (seq 0 (length args)) (map wrap32 args)
                 HF Hb He (code_at_self _) (entry_MS fd args) Hargs) as Hx.
   change (mkst 0 (seq 0 (length args)) (map wrap32 args) (out st1)) with (entry_state 0 args) in Hx.
@@ -987,7 +1522,7 @@ Proof.
   - destruct Hx as (-> & s' & Hst & Hstep & Ho).
     destruct fuel as [|k]; [rewrite eval_items_O in He; discriminate|].
     assert (Hcat : fd_catches fd = [] /\ fd_catch_all fd = None).
-    { unfold func_in_F1 in HF. apply andb_true_iff in HF. destruct HF as [_ H].
+    { unfold func_in_F in HF. apply andb_true_iff in HF. destruct HF as [_ H].
       destruct (fd_catches fd); [destruct (fd_catch_all fd); [discriminate | auto] | discriminate]. }
     destruct Hcat as [C1 C2]. rewrite C1, C2, handlers_nil.
     assert (Hrun : run (compile_func fd) 1 s' = VExc ExDivision (rev (out st2))).
